@@ -213,6 +213,36 @@ Definition run (c : config) (chunks : list str) (e : end_mode) : state :=
   finish e (feed (init c) chunks).
 
 (* ------------------------------------------------------------------------------------ *)
+(* The LangChain callback entry path: on_chat_model_start, on_llm_new_token per token,    *)
+(* on_llm_end.  LangChain passes chunk = GenerationChunk(text=token) /                    *)
+(* ChatGenerationChunk(message=AIMessageChunk(content=token)); push_chunk unwraps it.     *)
+
+(* on_chat_model_start: self.current_chunk = "" *)
+Definition on_chat_model_start (st : state) : state := set_cur st [].
+
+(* on_llm_new_token; the second component is self.first_token:
+     if self.first_token: self.first_token = False; if token == "": return
+     await self.push_chunk(chunk)
+   Only an EMPTY FIRST token is dropped; any later empty token reaches push_chunk, where it is
+   the end-of-stream marker. *)
+Definition on_llm_new_token (sf : state * bool) (token : str) : state * bool :=
+  let (st, first) := sf in
+  if first then
+    match token with
+    | [] => (st, false)
+    | _ => (push st (Some token), false)
+    end
+  else (push st (Some token), false).
+
+Definition feed_tokens (sf : state * bool) (tokens : list str) : state * bool :=
+  fold_left on_llm_new_token tokens sf.
+
+(* a whole LLM call as LangChain drives it *)
+Definition run_tokens (c : config) (chat : bool) (tokens : list str) : state :=
+  let st0 := if chat then on_chat_model_start (init c) else init c in
+  on_llm_end (fst (feed_tokens (st0, true) tokens)).
+
+(* ------------------------------------------------------------------------------------ *)
 (* Specification: what must be delivered for a text, whatever the chunking               *)
 
 (* the configured prefix is removed when the text starts with it *)
